@@ -147,9 +147,18 @@ pub fn forbid_unsafe() -> Result<String, String> {
         .output()
         .map_err(|e| format!("machinery: cannot run cargo: {}", e))?;
     let err = String::from_utf8_lossy(&out.stderr).to_string();
+    let uses_unsafe = err.contains("usage of an `unsafe`")
+        || err.contains("declaration of an `unsafe`")
+        || err.contains("implementation of an `unsafe`")
+        || err.contains("usage of `unsafe`")
+        || err.contains("unsafe attribute");
     if out.status.success() {
         Ok("library compiles under -F unsafe_code".into())
-    } else if err.contains("unsafe_code") || err.contains("usage of an `unsafe`") || err.contains("declaration of an `unsafe`") {
+    } else if !uses_unsafe && err.contains("E0453") && !super::c15::shared_state_scan().iter().any(|h| h.ends_with("unsafe ")) {
+        // only a lint-level conflict (an `allow(unsafe_code)` attribute somewhere)
+        // and no `unsafe` token in the sources: there is no unsafe code
+        Ok("no unsafe code (only an allow(unsafe_code) attribute conflicts with forbid)".into())
+    } else if uses_unsafe || err.contains("unsafe_code") {
         let lines: Vec<&str> = err.lines().filter(|l| l.contains("unsafe") || l.trim_start().starts_with("-->")).take(6).collect();
         Err(format!("the library contains unsafe code: {}", lines.join(" | ")))
     } else {
